@@ -1,6 +1,6 @@
 package props
 
-// Second half of X-vars: the strconv / EqualFold helper models, and `argmap` on every field and
+// Second half of X-vars: the strconv helper models, and `argmap` on every field and
 // directive of a set of validated documents (C15), with the direct `argSpec` check.
 
 import (
@@ -8,6 +8,7 @@ import (
 	"sort"
 	"strings"
 
+	"verifharness/internal/gen"
 	"verifharness/internal/impl"
 )
 
@@ -42,14 +43,6 @@ func (c *Ctx) checkStrconv() {
 		reqs = append(reqs, "strconv quote "+h)
 		want = append(want, impl.Call("strconvgo", []string{"quote", h}))
 	}
-	folds := []string{"RED", "red", "Red", "rEd", "Kelvin", "Kelvin", "KELVIN", "kelvin", "SK", "sk", "ſK", "ſK", "Sk", "", "R", "REDD", "\xff", "\xffED", "RE\xcc", "blue", "BLUE", "é", "É", "_a1", "_A1", "@", "`", "[", "{", "ſ", "ſſ", "ss", "K", "k", "KK"}
-	for _, s := range folds {
-		for _, t := range []string{"RED", "blue", "Kelvin", "SK", "ss", "kk", "_a1", "", "@", "`", "[", "{", "s", "K"} {
-			hs, ht := impl.HexW([]byte(s)), impl.HexW([]byte(t))
-			reqs = append(reqs, "strconv fold "+hs+" "+ht)
-			want = append(want, impl.Call("strconvgo", []string{"fold", hs, ht}))
-		}
-	}
 	got := c.Driver.Map(reqs)
 	bad := 0
 	for i := range got {
@@ -62,7 +55,7 @@ func (c *Ctx) checkStrconv() {
 			}
 		}
 	}
-	fmt.Printf("X-vars strconv/EqualFold helper models: %d cases, MISMATCHES %d\n", len(reqs), bad)
+	fmt.Printf("X-vars strconv helper models: %d cases, MISMATCHES %d\n", len(reqs), bad)
 }
 
 // documents for the argument-map run; %C is replaced by custom-scalar literals
@@ -101,37 +94,76 @@ var argVarSets = []string{
 type argStats struct {
 	docs, invalid, sites, ok, panics, mismatches, specChecked, specDiff, nocoerce int
 	panicEx                                                                       map[string]string
-	specEx                                                                        []string
+	specEx                                                                        []string // differences explained by the variable links alone
+	specOther                                                                     []string // any other difference
+	specLinked                                                                    int
+	replays                                                                       map[string]map[string]any
 }
 
-func (c *Ctx) checkArgMaps(sdl string, report bool) {
-	st := &argStats{panicEx: map[string]string{}}
-	var docs []string
-	for _, d := range argDocs {
-		if strings.Contains(d, "%C") {
-			for _, l := range customLits {
-				docs = append(docs, strings.ReplaceAll(d, "%C", l))
-			}
-		} else {
-			docs = append(docs, d)
-		}
+// reportArgMaps files the C15 findings of a run
+func reportArgMaps(c *Ctx, st *argStats) {
+	keys := make([]string, 0, len(st.panicEx))
+	for k := range st.panicEx {
+		keys = append(keys, k)
 	}
-	var reqs []string
-	type ref struct {
-		doc, vars string
-		coerce    bool
+	sort.Strings(keys)
+	for _, k := range keys {
+		c.Report("spec", "argmap-panic", fmt.Sprintf("ArgumentMap panics (%s) on a validated document: %s", k, st.panicEx[k]), st.replays["panic:"+k])
 	}
-	var refs []ref
-	for _, d := range docs {
-		for _, v := range argVarSets {
-			for _, co := range []string{"0", "1"} {
-				reqs = append(reqs, "argmapgo "+impl.HexW([]byte(sdl))+" "+impl.HexW([]byte(d))+" 0 "+co+" "+v)
-				refs = append(refs, ref{d, v, co == "1"})
-			}
-		}
+	for _, e := range st.specEx {
+		c.Report("spec", "argmap-precedence:default-of-another-operation-linked", "argument map differs from argSpec for the executed operation (it follows the variable definition of another operation): "+e[:min(900, len(e))], st.replays[e])
+	}
+	for _, e := range st.specOther {
+		c.Report("spec", "argmap-precedence:differs-from-spec", "argument map differs from argSpec: "+e[:min(900, len(e))], st.replays[e])
+	}
+}
+
+func replayArgMaps(c *Ctx, rep map[string]any) {
+	str := func(k string) string { s, _ := rep[k].(string); return s }
+	r := argRef{sdl: str("schema"), doc: str("document"), vars: str("vars")}
+	if f, ok := rep["op_index"].(float64); ok {
+		r.oi = int(f)
+	}
+	r.coerce, _ = rep["coerce"].(bool)
+	if r.sdl == "" || r.doc == "" || r.vars == "" {
+		c.ReportNoInput("runtime", "replay-unusable", "replay file has no schema/document/vars", nil)
+		return
+	}
+	st := &argStats{panicEx: map[string]string{}, replays: map[string]map[string]any{}}
+	c.runArgMaps([]argRef{r}, st, map[string]int{})
+	fmt.Printf("replayed: %d sites, go OK %d, PANIC %d, model mismatches %d, differs from argSpec %d (by the links only: %d)\n", st.sites, st.ok, st.panics, st.mismatches, st.specDiff, st.specLinked)
+	reportArgMaps(c, st)
+}
+
+func init() { Replayers["C15"] = replayArgMaps }
+
+type argRef struct {
+	sdl, doc, vars string
+	oi             int
+	coerce         bool
+}
+
+func (r argRef) request() string {
+	co := "0"
+	if r.coerce {
+		co = "1"
+	}
+	return "argmapgo " + impl.HexW([]byte(r.sdl)) + " " + impl.HexW([]byte(r.doc)) + " " + fmt.Sprint(r.oi) + " " + co + " " + r.vars
+}
+
+func (r argRef) replay() map[string]any {
+	return map[string]any{"op": "argmap", "schema": r.sdl, "document": r.doc, "op_index": r.oi, "coerce": r.coerce, "vars": r.vars}
+}
+
+// runArgMaps: the real ArgumentMap on every site of every (document, operation, variables) of refs,
+// compared with the model (correspondence) and with argSpec (C15)
+func (c *Ctx) runArgMaps(refs []argRef, st *argStats, dist map[string]int) {
+	reqs := make([]string, len(refs))
+	for i := range refs {
+		reqs[i] = refs[i].request()
 	}
 	replies := c.Worker.Map(reqs)
-	var dreqs, want, sreqs []string
+	var dreqs, want, sreqs, lreqs []string
 	var dref, sref []int
 	invalidSeen := map[string]bool{}
 	for i, rep := range replies {
@@ -152,22 +184,41 @@ func (c *Ctx) checkArgMaps(sdl string, report bool) {
 			continue
 		}
 		parts := strings.Split(rep, "\t")
-		for k := 0; k+3 <= len(parts); k += 3 {
+		for k := 0; k+4 <= len(parts); k += 4 {
 			dreqs = append(dreqs, parts[k])
 			want = append(want, parts[k+1])
 			dref = append(dref, i)
 			if refs[i].coerce {
 				// (where Go panics after successful coercion the specification must be undefined: a literal without value)
 				sreqs = append(sreqs, parts[k+2])
+				lreqs = append(lreqs, parts[k+3])
 				sref = append(sref, len(want)-1)
 			}
 		}
 	}
-	st.docs = len(docs)
 	got := c.Driver.Map(dreqs)
 	for i := range got {
 		st.sites++
 		c.Ev.Traces++
+		c.Ev.Case(dreqs[i], strings.Contains(dreqs[i], "(A "))
+		if k := strings.Index(dreqs[i], "(list "); k >= 0 {
+			// the request is `argmap (list <argdefs|nodef> <args> <vardefs> <vars>)`
+			rest := dreqs[i][k+6:]
+			defs := "nodef"
+			if strings.HasPrefix(rest, "(") {
+				defs = balanced(rest, 0)
+			}
+			rest = strings.TrimLeft(rest[len(defs):], " ")
+			args := balanced(rest, 0)
+			dist[fmt.Sprintf("sites with %d arguments written", min(strings.Count(args, "(A "), 5))]++
+			dist[fmt.Sprintf("sites with %d arguments declared", min(strings.Count(defs, "(AD "), 8))]++
+			if strings.Contains(args, "(V 0 ") {
+				dist["sites whose arguments mention a variable"]++
+			}
+			if strings.Contains(args, "(C ") {
+				dist["sites with a list or object literal"]++
+			}
+		}
 		if strings.HasPrefix(want[i], "OK") {
 			st.ok++
 		} else {
@@ -175,6 +226,7 @@ func (c *Ctx) checkArgMaps(sdl string, report bool) {
 			b, _ := impl.UnhexW(strings.TrimPrefix(want[i], "PANIC "))
 			msg := string(b)
 			if _, ok := st.panicEx[msg]; !ok {
+				st.replays["panic:"+msg] = refs[dref[i]].replay()
 				st.panicEx[msg] = refs[dref[i]].doc
 			}
 		}
@@ -182,25 +234,93 @@ func (c *Ctx) checkArgMaps(sdl string, report bool) {
 			st.mismatches++
 			r := refs[dref[i]]
 			c.Report("correspondence", "argmap-model-differs", fmt.Sprintf("ArgumentMap and the Lean model disagree on %s with %s: go=%s model=%s", r.doc, r.vars, want[i], got[i]),
-				map[string]any{"op": "argmap", "document": r.doc, "vars": r.vars, "request": dreqs[i], "go_observation": want[i], "model_observation": got[i]})
+				func() map[string]any {
+					m := r.replay()
+					m["request"], m["go_observation"], m["model_observation"] = dreqs[i], want[i], got[i]
+					return m
+				}())
 		}
 	}
 	spec := c.Driver.Map(sreqs)
+	specLinked := c.Driver.Map(lreqs)
 	seen := map[string]bool{}
 	for k, sp := range spec {
 		st.specChecked++
 		w := want[sref[k]]
-		agree := impl.CanonFloats(sp) == impl.CanonFloats(w) || (sp == "NONE" && strings.HasPrefix(w, "PANIC"))
-		if !agree {
+		same := func(sp string) bool {
+			return impl.CanonFloats(sp) == impl.CanonFloats(w) || (sp == "NONE" && strings.HasPrefix(w, "PANIC"))
+		}
+		if !same(sp) {
 			st.specDiff++
 			r := refs[dref[sref[k]]]
-			key := r.doc
-			if !seen[key] && len(st.specEx) < 12 {
-				seen[key] = true
-				st.specEx = append(st.specEx, fmt.Sprintf("doc %s vars %s: go=%s spec=%s", r.doc, r.vars, w, sp))
+			ex := fmt.Sprintf("doc %s vars %s: go=%s spec=%s", r.doc, r.vars, w, sp)
+			if same(specLinked[k]) {
+				// Go follows the specification for the definitions its nodes are LINKED to: the
+				// difference is the link to another operation's variable definition
+				st.specLinked++
+				if !seen[r.doc] && len(st.specEx) < 12 {
+					seen[r.doc] = true
+					st.specEx = append(st.specEx, ex)
+					st.replays[ex] = r.replay()
+				}
+			} else {
+				st.specOther = append(st.specOther, ex)
+				st.replays[ex] = r.replay()
 			}
 		}
 	}
+}
+
+func (c *Ctx) checkArgMaps(sdl string, report bool) {
+	st := &argStats{panicEx: map[string]string{}, replays: map[string]map[string]any{}}
+	evalsBefore := c.Ev.Evals
+	var docs []string
+	for _, d := range argDocs {
+		if strings.Contains(d, "%C") {
+			for _, l := range customLits {
+				docs = append(docs, strings.ReplaceAll(d, "%C", l))
+			}
+		} else {
+			docs = append(docs, d)
+		}
+	}
+	var refs []argRef
+	dist := map[string]int{}
+	for _, d := range docs {
+		nOps := strings.Count(d, "query ") + strings.Count(d, "mutation ")
+		for oi := 0; oi < max(nOps, 1); oi++ {
+			for _, v := range argVarSets {
+				for _, co := range []string{"0", "1"} {
+					refs = append(refs, argRef{sdl, d, v, oi, co == "1"})
+					dist[fmt.Sprintf("hand-written family: operation %d executed", oi)]++
+				}
+			}
+		}
+	}
+	// generated family: generated schemas, generated valid documents, every operation executed with
+	// generated conforming variables (coerced first)
+	nSchemas := c.Pick(120, 1200)
+	for si := 0; si < nSchemas; si++ {
+		gs := gen.GenSchema(c.R, c.R.Intn(9))
+		gsdl := gs.SDL()
+		for di := 0; di < 4; di++ {
+			d := gen.GenDoc(c.R, gs, 1+c.R.Intn(5))
+			for oi, op := range d.Ops {
+				for j := 0; j < 2; j++ {
+					m, _ := gen.GenVars(c.R, gs, d.Text, op.Name, true)
+					v := impl.SexpGoVal(m)
+					refs = append(refs, argRef{gsdl, d.Text, v, oi, true})
+				}
+				dist[fmt.Sprintf("generated family: operation with %d variables executed", min(len(op.Vars), 6))]++
+			}
+			dist[fmt.Sprintf("generated family: document with %d operations", min(len(d.Ops), 4))]++
+			if d.Fragments > 0 {
+				dist["generated family: document with fragments"]++
+			}
+		}
+	}
+	st.docs = len(docs) + nSchemas*4
+	c.runArgMaps(refs, st, dist)
 	fmt.Printf("X-vars argmap: %d documents (%d rejected by validation), %d field/directive sites: go OK %d, PANIC %d; coercion failed for %d (document, vars) pairs; MISMATCHES %d\n",
 		st.docs, st.invalid, st.sites, st.ok, st.panics, st.nocoerce, st.mismatches)
 	keys := make([]string, 0, len(st.panicEx))
@@ -212,20 +332,29 @@ func (c *Ctx) checkArgMaps(sdl string, report bool) {
 	for _, k := range keys {
 		fmt.Printf("  %s — %s\n", k, st.panicEx[k])
 	}
-	fmt.Printf("direct C15 check (argSpec vs Go, coerced variables only): %d sites, %d differ\n", st.specChecked, st.specDiff)
+	fmt.Printf("direct C15 check (argSpec for the executed operation vs Go, coerced variables only): %d sites, %d differ; %d of them agree with argSpec for the LINKED variable definitions (link to another operation), %d do not\n",
+		st.specChecked, st.specDiff, st.specLinked, len(st.specOther))
 	for _, e := range st.specEx {
 		fmt.Println("  ", e[:min(700, len(e))])
 	}
-	c.Ev.Evals += st.sites
-	if !report {
-		return
-	}
-	for _, k := range keys {
-		c.Report("spec", "argmap-panic(R15-was-repaired)", fmt.Sprintf("ArgumentMap panics (%s) on a validated document: %s", k, st.panicEx[k]),
-			map[string]any{"op": "argmap", "schema": sdl, "document": st.panicEx[k], "panic": k})
+	for _, e := range st.specOther {
+		fmt.Println("   OTHER:", e[:min(700, len(e))])
 	}
 	for _, e := range st.specEx {
-		c.Report("spec", "argmap-precedence:default-of-another-operation-linked", "argument map differs from argSpec: "+e[:min(900, len(e))],
-			map[string]any{"op": "argmap", "schema": sdl, "example": e})
+		c.Ev.Sample(map[string]any{"kind": "differs from the specification by the variable links only (known finding)", "example": e[:min(600, len(e))]})
+	}
+	c.Ev.Assume = append(c.Ev.Assume,
+		"the variables map passed coercion by VariableValues of the executed operation (C14): every variable with a default has an entry (DefaultsSupplied)",
+		"the sites judged are those of the executed operation: its directives, its selection set and the fragments it reaches",
+		"C15_precedence_linked assumes LinksAgree: the variable definitions the value nodes are linked to carry the same defaults as those of the executed operation (false only in the known finding default-of-another-operation-linked)",
+		"literal leaves are written as the lexer writes them (wellLexedB), argument names of a definition are unique (C07)")
+	printCounts("argmap distribution:", dist)
+	c.Ev.Extra["argmap_distribution"] = dist
+	c.Ev.Rule = "nontrivial = a site where at least one argument is written. hand-written documents (every argument kind, custom-scalar literals, variables nested in lists/objects, directives at every location, several operations sharing a fragment, every operation executed) + generated schemas/documents (internal/gen) executed with generated conforming variables; every field and directive site"
+	c.Ev.Extra["argmap"] = map[string]int{"documents": st.docs, "documents_rejected_by_validation": st.invalid, "sites": st.sites, "go_ok": st.ok, "go_panic": st.panics,
+		"coercion_failed_pairs": st.nocoerce, "spec_checked_sites": st.specChecked, "spec_differs": st.specDiff, "spec_differs_by_links_only": st.specLinked}
+	c.Ev.Evals = evalsBefore + st.sites
+	if report {
+		reportArgMaps(c, st)
 	}
 }
